@@ -137,6 +137,11 @@ func c05Make(c *core.Ctx, r *gen.Rand, maxVal int) []byte {
 	l := len(pre) - 20 + 8
 	pre[2], pre[3] = byte(l>>8), byte(l)
 	want := ref.FingerprintValue(pre)
+	if got := stun.FingerprintValue(pre); got != want {
+		c.Violate("appended-value", "FingerprintValue", map[string]interface{}{"input_hex": core.Hex(pre), "got": fmt.Sprintf("%08x", got), "want": fmt.Sprintf("%08x", want)})
+
+		return nil
+	}
 	if err := stun.Fingerprint.AddTo(m); err != nil {
 		c.Violate("addto-error", "addto-error", err.Error())
 
